@@ -202,9 +202,17 @@ def gen_nested_map_case(rng, name):
     c.cscripts[2] = shared
     c.graphs["fn0"] = [S("r", "map", "p1", "p0", fn="fn2:1"), S("", "RET", "r")]
     c.graphs["fn1"] = [S("o", "add2", "p0", "p1", uid=100), S("", "RET", "o")]
-    c.graphs["main"] = [S("d", "csrc", shape="tsd", uid=1), S("sh", "csrc", shape="tsd", uid=2),
-                        S("m", "map", "d", "sh", fn="fnd:0", passthrough=1), S("", "cmirror", "m", uid=11)]
+    main = [S("d", "csrc", shape="tsd", uid=1), S("sh", "csrc", shape="tsd", uid=2)]
+    sh = "sh"
+    for j in range(rng.choice([0, 0, 1, 2, 4])):
+        # the dictionary handed over whole (pass_through) comes out of a chain of copy nodes: the map has to rank after the end of
+        # that chain although the argument is tagged
+        main.append(S(f"sh{j}", "ccopy", sh, uid=20 + j))
+        sh = f"sh{j}"
+    main += [S("m", "map", "d", sh, fn="fnd:0", passthrough=1), S("", "cmirror", "m", uid=11)]
+    c.graphs["main"] = main
     c.meta["kind"] = "nested_map"
+    c.meta["passthrough_chain"] = sh != "sh"
     return c
 
 
